@@ -5,6 +5,9 @@ line `{"engine": ..., ...}`, one response per output line: `{"ok": {...}}` or
 -/
 import ZenoModel.Driver.SeqEngine
 import ZenoModel.Driver.StoreEngine
+import ZenoModel.Driver.CodecEngine
+import ZenoModel.Driver.SortEngine
+import ZenoModel.Driver.AuthEngine
 
 open Lean Zeno.Drv
 
@@ -12,6 +15,9 @@ def dispatch (j : Json) : R Json := do
   match (← str j "engine") with
   | "seq" => seqEngine j
   | "store" => storeEngine j
+  | "codec" => codecEngine j
+  | "sort" => sortEngine j
+  | "auth" => authEngine j
   | e => throw s!"unknown engine {e}"
 
 def handle (line : String) : String :=
